@@ -4,6 +4,8 @@ import (
 	"context"
 	"errors"
 	"sync"
+
+	"github.com/mutagen-io/mutagen/pkg/verif"
 )
 
 // ErrTrackingTerminated indicates that tracking was terminated before a polling
@@ -119,6 +121,8 @@ func (t *Tracker) track() {
 
 // Terminate terminates tracking.
 func (t *Tracker) Terminate() {
+	verif.Yield("tracker.terminate")
+
 	// Acquire the state lock.
 	t.change.L.Lock()
 
@@ -137,6 +141,8 @@ func (t *Tracker) Terminate() {
 
 // NotifyOfChange indicates the state index and notifies waiters.
 func (t *Tracker) NotifyOfChange() {
+	verif.Yield("tracker.notify")
+
 	// Acquire the state lock and defer its release.
 	t.change.L.Lock()
 	defer t.change.L.Unlock()
@@ -167,6 +173,8 @@ func (t *Tracker) NotifyOfChange() {
 // is provided, then the current state index (which will always be greater than
 // 0) is returned immediately.
 func (t *Tracker) WaitForChange(ctx context.Context, previousIndex uint64) (uint64, error) {
+	verif.Yield("tracker.wait")
+
 	// If the previous index is 0, then an immediate read is being requested. In
 	// that case we can just bypass the polling mechanism.
 	if previousIndex == 0 {
@@ -205,6 +213,7 @@ func (t *Tracker) WaitForChange(ctx context.Context, previousIndex uint64) (uint
 	// tracking loop will deregister the request.
 	select {
 	case <-ctx.Done():
+		verif.Yield("tracker.wait.cancel")
 		t.change.L.Lock()
 		delete(t.pollRequests, request)
 		defer t.change.L.Unlock()
